@@ -46,9 +46,29 @@ def field_of_arg(b, c, idx=0):
     return out
 
 
+# the blocking receive of the next task: recv() in a while-let, or the receiver iterated by a for loop
+RECV = ("std::sync::mpsc::Receiver::recv", "<std::sync::mpsc::Iter<'a, T> as std::iter::Iterator>::next",
+        "<std::sync::mpsc::IntoIter<T> as std::iter::Iterator>::next")
+
+
+def is_recv(c):
+    return c.callee in RECV
+
+
+def recv_arms(w, c):
+    """(block taken with a received task, block taken when the channel is closed) after the receive call `c`."""
+    sw_ = tables.switch_on_call_result(w, c)
+    if sw_ is None:
+        return None, None
+    arms, otherwise = tables.arm_targets(sw_[1])
+    if c.callee == RECV[0]:
+        return arms.get(0), arms.get(1, otherwise)       # Result: Ok = 0, Err = 1
+    return arms.get(1), arms.get(0, otherwise)           # Option: Some = 1, None = 0
+
+
 def worker(prog, crate):
     """The worker closure: the body that calls Receiver::recv in a loop."""
-    cands = [b for b in prog.owner_bodies(crate) if b.path.startswith(POOL) and any(c.callee == "std::sync::mpsc::Receiver::recv" for c in b.live_calls())]
+    cands = [b for b in prog.owner_bodies(crate) if b.path.startswith(POOL) and any(is_recv(c) for c in b.live_calls())]
     return cands[0] if len(cands) == 1 else None
 
 
@@ -202,7 +222,7 @@ def r06_1(ctx, prog, crate):
         return
     ctx.saw(w)
     cu = [c for c in w.live_calls() if c.callee == "std::panic::catch_unwind"]
-    rc = [c for c in w.live_calls() if c.callee == "std::sync::mpsc::Receiver::recv"]
+    rc = [c for c in w.live_calls() if is_recv(c)]
     if ctx.check(len(cu) == 1 and len(rc) == 1, "R06.1", ["worker", "shape"], "catch_unwind x%d recv x%d" % (len(cu), len(rc)), w.where(0)):
         lp = w.innermost_loop(cu[0].bb)
         ctx.check(lp is not None and rc[0].bb in lp["body"] and w.once_per_iteration(cu[0].bb, lp) and w.once_per_iteration(rc[0].bb, lp),
@@ -222,7 +242,7 @@ def r06_1(ctx, prog, crate):
                     cap = cp
             if cap:
                 srcs = cap[0].prov.op_src(cap[1])
-                ctx.check(any(s.kind == "call" and s.a == "std::sync::mpsc::Receiver::recv" for s in srcs) and nophi(srcs), "R06.1", ["worker", "runs-received-task"],
+                ctx.check(any(s.kind == "call" and s.a in RECV for s in srcs) and nophi(srcs), "R06.1", ["worker", "runs-received-task"],
                           "the task run is not the one received", c.line())
     sp = prog.body(POOL + "spawn", crate)
     if ctx.anchor("R06.1", "spawn", 1 if sp else 0, 1):
@@ -277,7 +297,7 @@ def r06_3(ctx, prog, crate):
     if w is None:
         return
     dec = [c for c in w.live_calls() if c.callee.endswith("fetch_sub")]
-    rc = [c for c in w.live_calls() if c.callee == "std::sync::mpsc::Receiver::recv"]
+    rc = [c for c in w.live_calls() if is_recv(c)]
     if not dec or not rc:
         return
     dec, rc = dec[0], rc[0]
@@ -711,7 +731,7 @@ class SpawnModel:
         for bi, si, s_ in st.stmts():
             if bi in blocks and s_["k"] == "assign" and s_["rv"]["k"] == "agg" and s_["rv"]["ak"] == "closure":
                 wb = prog.bodies.get((st.crate, norm(s_["rv"]["def"]), -1))
-                if wb is not None and any(c.callee == "std::sync::mpsc::Receiver::recv" for c in wb.live_calls()):
+                if wb is not None and any(is_recv(c) for c in wb.live_calls()):
                     self.worker_caps.append([direct_place(st, o) for o in s_["rv"]["ops"]])
         self.ok_shape, self.why = True, ""
 
